@@ -18,7 +18,7 @@ LEVEL = "exploration"
 TECHNIQUE = 'differential execution (hostile vs innocuous text) + independent comment stripper per style'
 LEVEL_TEXT = 'Held on hostile text classes x 9 comment styles x all text entry points.'
 RULE = ("hostile texts (LF, CR, CRLF, VT/FF/NEL/LS/PS, every opening and closing delimiter, the configured "
-        "delimiter itself, G-code payloads, %, {} format fields, non-ASCII, blank, long) x 9 comment styles "
+        "delimiter itself, G-code payloads, %, {} format fields, non-ASCII, blank, long) x 9 comment styles (a third of them reached through run-time switches of the style) "
         "x entry points comment(msg,*args) / annotate / comment= of move, rapid, move_absolute, "
         "rapid_absolute, set_axis, auto_home, probe / emergency_halt(message); distinct = (hostile class, "
         "style, entry point)")
@@ -32,7 +32,7 @@ TIERS = {
 }
 FLOORS = {
     "quick": {"counts": {"differential_pairs": 5500, "lines_compared": 8000, "hostile_linebreak": 1000,
-                         "hostile_delimiter": 1000}, "keys": 900},
+                         "hostile_delimiter": 1000, "runtime_style_switches": 1500}, "keys": 900},
     "thorough": {"counts": {"differential_pairs": 190000}, "keys": 1500},
 }
 STYLES = [";", "(", "[", "<", '"', "'", "/*", "#", "//"]
@@ -146,6 +146,18 @@ def run_case(ctx, col, case):
     A = Session(comment=style, le=le, interpret=False, builder_cls=bcls)
     B = Session(comment=style, le=le, interpret=False, builder_cls=bcls)
     innocuous = "ok" if text.strip() else text
+    # the comment style may also be (re)configured at run time: go through one or two other styles and
+    # come back to the one under test (both builders alike), so that anything derived from the symbols
+    # has to follow every switch
+    if rng.random() < 0.35:
+        detour = [rng.choice(STYLES) for _ in range(rng.choice([1, 2]))]
+        for s in (A, B):
+            for d in detour + [style]:
+                s.g.format.set_comment_symbols(d)
+        col.count("runtime_style_switches")
+        switched = True
+    else:
+        switched = False
     res = []
     for s, t in ((A, text), (B, innocuous)):
         try:
@@ -160,7 +172,8 @@ def run_case(ctx, col, case):
                "split-closer", "closer-run"):
         col.count("hostile_delimiter")
     col.key(cls, style, entry)
-    detail = {"style": style, "entry": entry, "text": text, "class": cls, "line_ending": le}
+    detail = {"style": style, "entry": entry, "text": text, "class": cls, "line_ending": le,
+              "style_switched_at_run_time": switched}
     if res[0] != res[1]:
         if res[0] != "ok" and res[1] == "ok":
             # refusing a hostile text outright is not an injection; note it
